@@ -29,7 +29,7 @@ func init() {
 			"random finishing. (3) abandonment: registry built with a 60ms idle limit through the public constructor; the monitor waits 3x that and calls the exported sweep itself (a lower " +
 			"bound, no race with 'now'), or CleanupConnection, or GracefulShutdown; the abandoned transaction's writes must be gone. (4) begin requests whose context deadline (5-30ms) expires " +
 			"while another client holds the lock - the late-grant path - repeated for several rounds. (5) failures: commit after the storage was closed, service requests with invalid arguments " +
-			"in the middle of a transaction. Every 20th case: 40 rounds of 16-40 simultaneous read-only begins through the registry (distinct handles, lock probe after all finished); every 20th case: overlapping finishing calls on one transaction queued behind an in-flight multi-megabyte put (exactly one may take effect). Shutdown scenarios abandon several transactions and pass an expired context in every second instance. distinct = hash(kind, parameters, call sequence); non-trivial = the scenario reached its critical step (timed-out begin, sweep of an abandoned " +
+			"in the middle of a transaction. Every 20th case: 40 rounds of 16-40 simultaneous read-only begins through the registry (distinct handles, lock probe after all finished); every 20th case: overlapping finishing calls on one transaction queued behind an in-flight multi-megabyte put (exactly one may take effect). Every 100th case: 1-3 begin requests with contexts that never end give up on the registry's own 10s limit while another client holds the lock; after the holder's commit the lock probe must succeed (late grants given back). Shutdown scenarios abandon several transactions and pass an expired context in every second instance. distinct = hash(kind, parameters, call sequence); non-trivial = the scenario reached its critical step (timed-out begin, sweep of an abandoned " +
 			"transaction, failed commit, second finish)",
 		Assumptions: []string{"a client that requests a second transaction while still holding one is excluded (documented limitation)", "the hard-coded 30s registry ticker is bypassed by calling the exported sweep"},
 		NumCases: func(tier string) int {
@@ -69,6 +69,10 @@ func runC17(c *core.Ctx, res *core.Result) {
 	}
 	if c.Idx%20 == 16 {
 		c17OverlappingFinishers(c, res, eng)
+		return
+	}
+	if c.Idx%100 == 33 {
+		c17InternalBeginLimit(c, res, eng)
 		return
 	}
 	feat := map[string]string{"scenario": []string{"protocol", "concurrent", "abandon", "begin_deadline", "failures"}[kind]}
@@ -531,6 +535,75 @@ func c17BeginBurst(c *core.Ctx, res *core.Result, eng *engine.EngineFacade) {
 	res.Count("critical_steps", int64(rounds))
 	res.Sig = core.Sig("burst", n, rounds)
 	res.Nontrivial = true
+}
+
+// c17InternalBeginLimit: begin requests whose context never ends by itself give up on the registry's own
+// limit (10s) while another client holds the lock; their helper goroutines are granted the lock only after the
+// holder has finished, when nobody waits for the result any more. The late grants must be given back.
+func c17InternalBeginLimit(c *core.Ctx, res *core.Result, eng *engine.EngineFacade) {
+	r := c.Rand
+	feat := map[string]string{"scenario": "begin_internal_limit"}
+	reg := transaction.NewRegistry()
+	idA, err := reg.Begin(context.WithValue(context.Background(), "peer", "holder"), eng, false)
+	if err != nil {
+		res.Violate("begin_failed", err.Error(), feat)
+		return
+	}
+	txA, _ := reg.Get(idA)
+	txA.Put([]byte("held"), []byte("by-A"))
+	n := r.Range(1, 3)
+	type br struct {
+		id  string
+		err error
+	}
+	results := make(chan br, n)
+	for i := 0; i < n; i++ {
+		ro := r.Chance(40)
+		go func(i int) {
+			id, err := reg.Begin(context.WithValue(context.Background(), "peer", fmt.Sprintf("waiter-%d", i)), eng, ro)
+			results <- br{id, err}
+		}(i)
+	}
+	gaveUp := 0
+	for i := 0; i < n; i++ {
+		select {
+		case b := <-results:
+			if b.err != nil {
+				gaveUp++
+			} else if tx, ok := reg.Get(b.id); ok {
+				// granted although A holds the lock: not this statement's business; give it back
+				tx.Rollback()
+				reg.Remove(b.id)
+			}
+		case <-time.After(60 * time.Second):
+			res.Violate("hang", "a Begin through the registry (context without deadline, another client holding the lock) had not returned after 60s; the registry's own limit is 10s\n"+blockedKevoStacks(), feat)
+			return
+		}
+	}
+	if err := txA.Commit(); err != nil {
+		res.Violate("commit_failed", "holder's commit: "+err.Error(), feat)
+		return
+	}
+	reg.Remove(idA)
+	if !lockProbe(eng, 10*time.Second) {
+		res.Violate("lock_leaked", fmt.Sprintf("%d begin requests (contexts without deadline) gave up on the registry's own 10s limit while another client held the lock; after that client committed, a fresh read-write transaction could not begin within 10s: a transaction granted to a request nobody waits for any more still holds the lock\n%s", gaveUp, blockedKevoStacks()), feat)
+		return
+	}
+	res.Count("lock_probes", 1)
+	if v, err := eng.Get([]byte("held")); err != nil || string(v) != "by-A" {
+		res.Violate("commit_lost", fmt.Sprintf("the holder's committed write reads back as %q, %v", v, err), feat)
+		return
+	}
+	reg.GracefulShutdown(context.Background())
+	if !lockProbe(eng, 10*time.Second) {
+		res.Violate("lock_leaked", "after the registry shutdown that followed the internal-limit scenario a fresh read-write transaction could not begin within 10s", feat)
+		return
+	}
+	res.Count("lock_probes", 1)
+	res.Count("begins_given_up_on_internal_limit", int64(gaveUp))
+	res.Count("critical_steps", int64(gaveUp))
+	res.Sig = core.Sig("internal_limit", n)
+	res.Nontrivial = gaveUp > 0
 }
 
 // c17OverlappingFinishers: two finishing calls on one transaction that overlap in time - a client's commit
